@@ -119,7 +119,7 @@ impl RepScenario {
 pub fn gen_rep_scenario(rng: &mut sim_core::prng::Rng, max_replicas: u64) -> RepScenario {
     let lj = rng.chance(0.3);
     let shape = if lj { *rng.pick(&["circle", "trimer", "trimer"]) } else { *rng.pick(&["polygon", "polygon", "circle", "trimer"]) };
-    let steps = *rng.pick(&[20u64, 50, 100, 200]);
+    let steps = *rng.pick(&[5u64, 20, 50, 100, 200]);
     RepScenario {
         group: rng.pick(&sim_core::cliproc::GROUPS).to_string(),
         shape: shape.to_string(),
@@ -133,10 +133,11 @@ pub fn gen_rep_scenario(rng: &mut sim_core::prng::Rng, max_replicas: u64) -> Rep
         replicas: rng.range_u64(1, max_replicas),
         steps,
         inner_steps: *rng.pick(&[steps, steps / 2, 10, 1000]),
-        kt_start: *rng.pick(&[0.1, 0.1, 1.0, 0.0]),
+        // hot, coarse, short runs leave some replicas in bad (for LJ: negative-score) states
+        kt_start: *rng.pick(&[0.1, 0.1, 1.0, 0.0, 10.0, 100.0]),
         kt_finish: *rng.pick(&[Some(0.001), None]),
         kt_ratio: *rng.pick(&[None, None, Some(0.1)]),
-        max_step_size: *rng.pick(&[0.01, 0.1, 0.5]),
+        max_step_size: *rng.pick(&[0.01, 0.1, 0.2, 0.5]),
         convergence: *rng.pick(&[None, None, Some(1e-6)]),
         stale_output: rng.chance(0.3),
         log_level: *rng.pick(&[0u64, 0, 0, 1, 2]),
